@@ -40,8 +40,11 @@ class HistEngine:
         trace = os.path.join(scratch, tag + ".trace")
         e = dict(env)
         e["VERIF_OUT"] = trace
+        ov = self.extra_overlay(scratch)
+        if getattr(self, "nogate", False):
+            e["VERIF_NOGATE"] = "1"
         rc, out = C.run_harness(scratch, self.pkg_rel, self.harness_dir, self.test_name, e,
-                                extra_overlay=self.extra_overlay(scratch), timeout=timeout)
+                                extra_overlay=ov, timeout=timeout)
         return rc, out, trace
 
     def run_driver(self, trace, extra=None):
@@ -140,7 +143,110 @@ class MEEngine(HistEngine):
     }
 
 
-ENGINES = [MEEngine()]
+
+def pool_nontrivial(kind):
+    def f(lines):
+        ops = [l.split(";")[0].split() for l in lines]
+        mids = [l.split(";")[1] if l.count(";") >= 2 else "" for l in lines]
+        picked = sum(1 for m in mids if "RET picked" in m)
+        if kind == "picks":
+            return picked >= 1
+        if kind == "publish":
+            return sum(1 for m in mids if " S " in (" " + m)) >= 2
+        if kind == "keyed":
+            # a keyed call after a successful bind completion
+            bound = False
+            for o, m in zip(ops, mids):
+                if o and o[0] == "D" and len(o) > 2 and o[2] == "0":
+                    bound = True
+                if bound and o and o[0] == "P" and o[2] in ("2", "3") and "RET picked" in m:
+                    return True
+            return False
+        if kind == "refresh":
+            return any(" RM " in (" " + m) for m in mids)
+        if kind == "growth":
+            return any(o and o[0] == "P" and " N " in (" " + m) for o, m in zip(ops, mids))
+        if kind == "rr":
+            return any("RET blocked" in m for m in mids) or sum(1 for o, m in zip(ops, mids) if o and o[0] == "P" and o[2] == "1" and "RET picked" in m) >= 2
+        if kind == "resolver":
+            return sum(1 for o in ops if o and o[0] == "R") >= 2
+        if kind == "any":
+            return len(ops) >= 3
+        return False
+    return f
+
+
+class PoolEngine(HistEngine):
+    name = "pool"
+    pkg_rel = "grpcgcp"
+    harness_dir = "pool"
+    test_name = "TestVerifPool"
+    driver_dir = "pool"
+    driver_bin = "pool_driver"
+    extract_v = "ExtractPOOL.v"
+    coq_dir = "Pool"
+    corpus = "pool"
+    GEN = ("histories = corpus (witnesses of every fixed finding) + seeded random histories over pool configurations "
+           "(min,max in {0,1,2,3,5}; watermark in {0,1,2,3,100,2^31,2^32-1}; fallback on/off; unresponsive (ms,calls); "
+           "round-robin on/off; nil config) of resolver updates (changing/empty address lists, nil/wrong-type config), resolver errors, "
+           "state reports for pool/unknown/replacement connections (all five states), picks on current and superseded pickers "
+           "(plain/BIND/BOUND/UNBIND, good and bad key paths, 0-2 keys, with/without interceptor context, deadlines, cancelled), "
+           "completions in any order (ok/error/client deadline/server deadline), clock advances, factory failures, cancellations; "
+           "distinct by hash of the operation list; ")
+    props = {}
+
+    def extra_overlay(self, scratch):
+        """line-preserving copies of gcp_balancer.go / gcp_picker.go with time.Now() -> verifNow()"""
+        repl = {}
+        for f in ("gcp_balancer.go", "gcp_picker.go"):
+            src = os.path.join(C.REPO, "grpcgcp", f)
+            dst = os.path.join(scratch, "clock_" + f)
+            text = open(src).read().replace("time.Now()", "verifNow()")
+            if f == "gcp_picker.go":
+                # yield point between the pool-size check and newSubConn() (same line: line numbers are preserved)
+                if "\t\tp.gb.newSubConn()\n" in text:
+                    text = text.replace("\t\tp.gb.newSubConn()\n", "\t\tverifYield(\"grow\"); p.gb.newSubConn()\n", 1)
+                else:
+                    self.nogate = True
+            open(dst, "w").write(text)
+            repl[src] = dst
+        return repl
+
+
+_POOL_REL_ALL = {"ret", "newsc", "addr", "publish", "unblocked", "cfg", "counters", "aff", "fb", "states", "refs",
+                 "streams", "slotaff", "refresh", "rr", "picker", "now", "lock", "ended", "badop", "construct"}
+
+
+def _pool_prop(mon, rel, nontriv, rule, n_quick="3000", n_thorough="150000"):
+    return dict(monitor=mon, rel=rel, quick=dict(VERIF_N=n_quick, VERIF_MAXOPS="40"),
+                thorough=dict(VERIF_N=n_thorough, VERIF_MAXOPS="60"),
+                nontrivial=pool_nontrivial(nontriv), rule=PoolEngine.GEN + rule)
+
+
+PoolEngine.props = {
+    "C01": _pool_prop("c01", {"ret", "aff", "refs", "states", "slotaff", "ended", "badop", "construct", "fb", "picker", "publish"}, "keyed",
+                      "non-trivial = a BOUND/UNBIND call was placed after a successful BIND completion"),
+    "C02": _pool_prop("c02", {"ret", "streams", "refs", "states", "picker", "publish", "ended", "badop", "construct"}, "picks",
+                      "non-trivial = at least one call was placed"),
+    "C03": _pool_prop("c03", {"ret", "newsc", "refs", "states", "cfg", "ended", "badop", "construct"}, "growth",
+                      "non-trivial = the pool grew during a pick"),
+    "C04": _pool_prop("c04", {"publish", "counters", "states", "refs", "picker", "ended", "badop", "construct"}, "publish",
+                      "non-trivial = at least two state/picker pairs were published"),
+    "C05": _pool_prop("c05", _POOL_REL_ALL, "any", "non-trivial = at least two operations after construction"),
+    "C06": _pool_prop("c06", {"ret", "unblocked", "lock", "ended", "badop", "construct", "rr", "states", "refs"}, "any",
+                      "non-trivial = at least two operations after construction"),
+    "C07": _pool_prop("c07", {"newsc", "refresh", "refs", "states", "ret", "aff", "fb", "streams", "slotaff", "ended", "badop", "construct"}, "refresh",
+                      "non-trivial = a refresh ran to completion (old connection removed)"),
+    "C08": _pool_prop("c08", {"ret", "fb", "aff", "states", "refs", "picker", "publish", "ended", "badop", "construct"}, "keyed",
+                      "non-trivial = a BOUND/UNBIND call was placed after a successful BIND completion (fallback enabled by the generator)"),
+    "C09": _pool_prop("c09", {"ret", "rr", "unblocked", "refs", "states", "streams", "ended", "badop", "construct"}, "rr",
+                      "non-trivial = a round-robin BIND pick blocked, or two of them were placed"),
+    "C20": _pool_prop("c20", {"addr", "newsc", "refs", "refresh", "cfg", "ended", "badop", "construct"}, "resolver",
+                      "non-trivial = at least two resolver updates"),
+}
+
+
+ENGINES = [MEEngine(), PoolEngine()]
 
 
 def load_plugins():
